@@ -74,6 +74,7 @@ struct Target {
     restype: Option<String>,                      // the outcome type of the function (default `res`)
     recfuel: Option<String>,
     places: Vec<(String, String, String, String)>, // expression text that denotes a mutable place inside a variable: (text, variable, getter term, setter term with $v)
+    diverge: HashMap<String, String>,             // "path/arity" of a call that never returns (process::exit): the outcome it stands for
     placemethod: HashMap<String, String>,         // "name/arity" of a mutating method called on a place -> the place's new value ($0 current value)
     fldset: HashMap<String, String>,              // field name -> record update template ($0 record, $1 new value)
     unwrap_fn: String,                            // the function that turns an error value into a panic (default unwrap_p)
@@ -194,6 +195,64 @@ impl<'a> Tr<'a> {
             }
         }
         Err(format!("assignment to unknown variable {}", v))
+    }
+
+    fn is_diverging(&self, e: &Expr) -> bool {
+        match e {
+            Expr::Paren(p) => self.is_diverging(&p.expr),
+            Expr::Call(c) => self.t.diverge.contains_key(&format!("{}/{}", toks(&c.func), c.args.len())),
+            Expr::Block(b) => match b.block.stmts.last() {
+                Some(Stmt::Expr(x, _)) => self.is_diverging(x),
+                _ => false,
+            },
+            _ => false,
+        }
+    }
+
+    // an expression that never returns (a call of the `diverge` table, or a block of skipped macros ending in
+    // one): the outcome it stands for
+    fn diverges(&mut self, e: &Expr) -> Option<R<String>> {
+        match e {
+            Expr::Paren(p) => self.diverges(&p.expr),
+            Expr::Call(c) => {
+                let key = format!("{}/{}", toks(&c.func), c.args.len());
+                let tmpl = self.t.diverge.get(&key).cloned()?;
+                let mut binds = Vec::new();
+                let mut args = vec![String::new()];
+                for a in &c.args {
+                    match self.expr(a, &mut binds) {
+                        Ok((v, _)) => args.push(v),
+                        Err(e) => return Some(Err(e)),
+                    }
+                }
+                if !binds.is_empty() {
+                    return Some(Err("partial argument of a diverging call".into()));
+                }
+                let t2 = self.subst_vars(&tmpl);
+                Some(Ok(Self::subst(&t2, &args)))
+            }
+            Expr::Block(b) => {
+                let n = b.block.stmts.len();
+                if n == 0 {
+                    return None;
+                }
+                for st in &b.block.stmts[..n - 1] {
+                    let skipped = match st {
+                        Stmt::Macro(m) => self.is_skipped_macro(&toks(&m.mac.path)),
+                        Stmt::Expr(Expr::Macro(m), _) => self.is_skipped_macro(&toks(&m.mac.path)),
+                        _ => false,
+                    };
+                    if !skipped {
+                        return None;
+                    }
+                }
+                match &b.block.stmts[n - 1] {
+                    Stmt::Expr(x, _) => self.diverges(x),
+                    _ => None,
+                }
+            }
+            _ => None,
+        }
     }
 
     // `<place>.field` or `<alias>.field` on the left of an assignment: (index of the place, field)
@@ -1386,7 +1445,7 @@ impl<'a> Tr<'a> {
                 let restc = self.seq(rest, k)?;
                 Ok(Self::wrap_binds(binds, format!("obind ({}) (fun '({}, {}) =>\n{})", v, c, rc, restc)))
             }
-            Stmt::Local(l) if l.init.as_ref().map(|i| matches!(&*i.expr, Expr::Match(m) if m.arms.iter().any(|a| matches!(&*a.body, Expr::Return(_))))).unwrap_or(false) => {
+            Stmt::Local(l) if l.init.as_ref().map(|i| matches!(&*i.expr, Expr::Match(m) if m.arms.iter().any(|a| matches!(&*a.body, Expr::Return(_)) || self.is_diverging(&a.body)))).unwrap_or(false) => {
                 // let x = match e { P => v, Q => return r };  — the arms that yield a value go on with x bound
                 let init = l.init.as_ref().unwrap();
                 let m = match &*init.expr { Expr::Match(m) => m, _ => unreachable!() };
@@ -1397,25 +1456,47 @@ impl<'a> Tr<'a> {
                 let mut binds = Vec::new();
                 let (scrut, _) = self.expr(&m.expr, &mut binds)?;
                 let mut out = format!("match {} with\n", scrut);
-                for a in &m.arms {
-                    if a.guard.is_some() {
-                        return Err("guard in a let-match with a returning arm".into());
+                let pat_key = |p: &Pat| -> String {
+                    norm(&format!(" {} ", p.to_token_stream()).replace("(", " ( ").replace(" ref ", " ").replace(" mut ", " "))
+                };
+                let mut consumed: Vec<usize> = Vec::new();
+                for (ai, a) in m.arms.iter().enumerate() {
+                    if consumed.contains(&ai) {
+                        continue;
                     }
                     let saved = self.env.clone();
                     self.env.push(HashMap::new());
                     let pat = self.pattern(&a.pat)?;
-                    let body = if let Expr::Return(r) = &*a.body {
-                        match &r.expr {
-                            Some(x) => self.ret(x)?,
-                            None => return Err("bare return in a let-match".into()),
+                    let name2 = name.clone();
+                    let mut arm_code = |me: &mut Self, body: &Expr| -> R<String> {
+                        if let Expr::Return(r) = body {
+                            return match &r.expr {
+                                Some(x) => me.ret(x),
+                                None => Err("bare return in a let-match".into()),
+                            };
                         }
-                    } else {
+                        if let Some(d) = me.diverges(body) {
+                            return d;
+                        }
                         let mut ab = Vec::new();
-                        let (v, kind) = self.expr(&a.body, &mut ab)?;
-                        let kind = self.t.kinds.get(&name).cloned().unwrap_or(kind);
-                        let c = self.bind(&name, kind);
-                        let restc = self.seq(rest, k)?;
-                        Self::wrap_binds(ab, format!("let {} := {} in\n{}", c, v, restc))
+                        let (v, kind) = me.expr(body, &mut ab)?;
+                        let kind = me.t.kinds.get(&name2).cloned().unwrap_or(kind);
+                        let c = me.bind(&name2, kind);
+                        let restc = me.seq(rest, k)?;
+                        Ok(Self::wrap_binds(ab, format!("let {} := {} in\n{}", c, v, restc)))
+                    };
+                    let body = if let Some((_, g)) = &a.guard {
+                        // a failed guard goes on with the later unguarded arm that has the same pattern
+                        let same = m.arms.iter().enumerate().skip(ai + 1).find(|(_, b)| b.guard.is_none() && pat_key(&b.pat) == pat_key(&a.pat));
+                        let (bi, fb) = same.ok_or("a guarded arm of a let-match needs a later arm with the same pattern")?;
+                        consumed.push(bi);
+                        let mut gb = Vec::new();
+                        let (gc, _) = self.expr(g, &mut gb)?;
+                        let then = arm_code(self, &a.body)?;
+                        let els = arm_code(self, &fb.body)?;
+                        Self::wrap_binds(gb, format!("if {} then\n{}\nelse\n{}", gc, then, els))
+                    } else {
+                        arm_code(self, &a.body)?
                     };
                     self.env = saved;
                     let _ = write!(out, "| {} =>\n{}\n", pat, body);
@@ -1633,6 +1714,10 @@ impl<'a> Tr<'a> {
                 }
                 return Ok(out);
             }
+        }
+        // process::exit(n);  — a call that never returns: what follows is dead
+        if let Some(d) = self.diverges(e) {
+            return d;
         }
         // <place>.m(args);  — a mutating method on a place inside a variable (an entry of a map)
         if let Expr::MethodCall(m) = e {
@@ -2793,6 +2878,10 @@ fn parse_targets(text: &str) -> (String, Vec<Target>) {
             "placemethod" => {
                 let (a, b) = arrow(rest);
                 t.placemethod.insert(norm(&a), b);
+            }
+            "diverge" => {
+                let (a, b) = arrow(rest);
+                t.diverge.insert(norm(&a), b);
             }
             "pcondeff" => {
                 let (a, b) = arrow(rest);
